@@ -136,7 +136,7 @@ def run(c):
                     c.nontriv(x["src_a"])
                     if sb != "ok" or not x["ir_equal"] or a.get("reports") != b.get("reports"):
                         c.fail("oracle", "a group with local helpers / named constants loads with a meaning different from the same group written out "
-                               "(helpers inlined, constants as literals)" + (": Go's reading of it calls a package-level function and is not a loadable rule" if x.get("twin_rejected") or x.get("pkg_before") else ""), input=inp,
+                               "(helpers inlined, constants as literals)" + (": Go's reading of it calls a package-level function and is not a loadable rule" if x.get("twin_rejected") or x.get("pkg_before") or x.get("pkg_arg") else ""), input=inp,
                                observed={"ir": a.get("ir"), "reports": a.get("reports")},
                                expected={"ir": b.get("ir"), "reports": b.get("reports"), "inlined_status": b.get("conv_err") or b.get("load_err") or "ok"})
                 if x["id"] in verdict and not (sa == "conv_err" and not (a.get("conv_err") or "").startswith("irconv error")):
@@ -187,7 +187,7 @@ def run(c):
                          ("legacy_octal_in_helper_body", "octal"), ("package_func_named_like_helper", "pkg_func"),
                          ("helper_called_more_than_once", "twice"), ("helper_with_blank_param", "blank"),
                          ("helper_with_blank_param_before_named", "blank_first"), ("helper_body_names_constant", "const_body"),
-                         ("helper_body_names_shadowed_constant", "shadow_body"), ("helper_calls_package_function_named_like_a_later_helper", "pkg_before"), ("higher_order_helper", "higher_order"),
+                         ("helper_body_names_shadowed_constant", "shadow_body"), ("helper_calls_package_function_named_like_a_later_helper", "pkg_before"), ("higher_order_helper", "higher_order"), ("package_function_passed_to_a_higher_order_helper_named_like_a_later_helper", "pkg_arg"),
                          ("higher_order_parameter_named_like_a_helper", "higher_named")):
             for tag, pred in (("", lambda x: True), ("_loaded", lambda x: status(x["a"]) == "ok")):
                 c.coverage[key + tag] = c.coverage.get(key + tag, 0) + sum(
